@@ -1,5 +1,66 @@
-// stub: check for C20 not built yet
+use c20::{Case, InitSpec, ObsSpec};
+use vcore::proptest::prelude::*;
+
+const RULE: &str = "a case is a workload on a fresh AmbientSlot: K in 0..=16 initialiser threads (each owning five components tagged with its index; method = Setup::try_init_slot | Setup::init_slot | AmbientSlot::init; generated spin skew; optionally emitting through its handle when it wins) and M in 0..=16 observer threads (generated skew, 1..=6 rounds of { poll is_enabled, emit an event, open+complete a span, blocking_flush } through slot.get(), generated polling budget and gaps), released together by a spin barrier; the main thread uses the slot before any thread starts and after all have joined. The schedule is whatever the OS scheduler produces (sampling, not enumeration). Non-trivial = at least 2 racing initialisers and at least 1 concurrent observer.";
+
+fn skew() -> impl Strategy<Value = u16> {
+    prop_oneof![
+        4 => Just(0u16),
+        4 => 0u16..64,
+        3 => 0u16..600,
+        1 => 0u16..6000,
+    ]
+}
+
+fn init_spec() -> impl Strategy<Value = InitSpec> {
+    (0u8..3, skew(), any::<bool>()).prop_map(|(method, skew, post_emit)| InitSpec { method, skew, post_emit })
+}
+
+fn obs_spec() -> impl Strategy<Value = ObsSpec> {
+    (
+        skew(),
+        1u8..=6,
+        prop_oneof![2 => Just(0u16), 2 => 0u16..200, 2 => 200u16..5000],
+        prop_oneof![3 => Just(0u16), 2 => 0u16..100, 1 => 0u16..2000],
+        prop::bool::weighted(0.6),
+        prop::bool::weighted(0.6),
+    )
+        .prop_map(|(skew, iters, poll, gap, do_span, do_flush)| ObsSpec { skew, iters, poll, gap, do_span, do_flush })
+}
+
+fn case() -> impl Strategy<Value = Case> {
+    let k = prop_oneof![
+        1 => Just(0usize),
+        1 => Just(1usize),
+        10 => 2usize..=4,
+        8 => 5usize..=16,
+    ];
+    let m = prop_oneof![
+        1 => Just(0usize),
+        10 => 1usize..=4,
+        9 => 5usize..=16,
+    ];
+    (k, m).prop_flat_map(|(k, m)| (prop::collection::vec(init_spec(), k..=k), prop::collection::vec(obs_spec(), m..=m)).prop_map(|(inits, observers)| Case { inits, observers }))
+}
+
 fn main() {
-    eprintln!("C20: check not built yet");
-    std::process::exit(2);
+    vcore::run(
+        "C20",
+        vcore::Level::Exploration,
+        RULE,
+        &[
+            "the interleavings explored are those the OS scheduler produces on this machine under a spin barrier and generated skews; the oracle is schedule-independent (it holds for every interleaving), so no timing information is used for a verdict, but a rare interleaving can be missed",
+            "an observer's emit issued before that observer has seen is_enabled() == true may or may not be delivered (initialisation can complete in between): don't-care, only its consistency is checked",
+            "dropping the components of a losing initialiser is not an invocation of them",
+            "each event is attributed to the filter consulted last on the emitting thread (emit is synchronous: filter, then emitter, on the caller's thread) and span events to the rng that produced the trace id shown to the filter when the span began",
+            "at most 3 cases run concurrently (each has up to 33 threads) to bound oversubscription; when a failure is replayed or shrunk the workload is re-run up to 200 times because the schedule is not part of the case",
+        ],
+        |s| {
+            s.require("race:k>=2,m>=1", 5000);
+            s.require("init_slot-loser-may-panic", 5000);
+            s.require("raw-AmbientSlot-init", 5000);
+            s.require("observed-both-sides-of-init", 1000);
+            s.gen("slot-race", s.n(100_000, 4_000_000), case, c20::check);
+        },
+    )
 }
